@@ -40,6 +40,7 @@ func checkC10(w *World, r *Report) {
 	checkGetterFinality(w, r, "C10.R2")
 	checkBarExit(w, r, "C10")
 	ruleHandover(w, r, "C10.HANDOVER")
+	ruleLoopVarCapture(w, r, "C10.LOOPVAR")
 }
 
 // ruleHandover: on every exit path of the bar loop nothing touches the bar state after it was
